@@ -252,9 +252,8 @@ void* FileGraph::fromArrays(uint64_t* out_idx, uint64_t num_nodes, void* outs,
         *fptr++ = convert_htole64(((uint64_t*)outs)[i]);
     }
 
-    // padding
-    if (num_edges % 2)
-      fptr += 1;
+    // no padding: 64-bit destinations keep the edge data 8-byte aligned
+    // (cf. rawBlockSize(), fromMem() and FileGraphWriter)
 
     fptr0 = (char*)fptr;
   }
